@@ -236,6 +236,15 @@ func (c *Ctx) Preamble() string {
 	return sb.String()
 }
 
+// pkgID: the package name used in contract keys; the generators under internal/jennies share their
+// names with the parsers (jsonschema, openapi), so they are qualified.
+func pkgID(p *types.Package) string {
+	if strings.Contains(p.Path(), "/jennies/") {
+		return "jennies/" + p.Name()
+	}
+	return p.Name()
+}
+
 // funcKey gives the stable contract key of a function: pkg.Func, pkg.(*T).M, pkg.T.M, parent$N.
 func funcKey(fn *ssa.Function) string {
 	if fn == nil {
@@ -249,9 +258,9 @@ func funcKey(fn *ssa.Function) string {
 	}
 	pkg := ""
 	if fn.Pkg != nil {
-		pkg = fn.Pkg.Pkg.Name() + "."
+		pkg = pkgID(fn.Pkg.Pkg) + "."
 	} else if fn.Object() != nil && fn.Object().Pkg() != nil {
-		pkg = fn.Object().Pkg().Name() + "."
+		pkg = pkgID(fn.Object().Pkg()) + "."
 	}
 	if recv := fn.Signature.Recv(); recv != nil {
 		t := recv.Type()
